@@ -53,6 +53,9 @@ class C14(Prop):
         c = netgen.generated_network(rng) if rng.random() < 0.6 else netgen.hand_network(rng)
         if rng.random() < 0.3:
             c["jd_type"] = "list"
+        if rng.random() < 0.4:
+            c["node_order"] = [v for v, _ in c["jd"]]
+            rng.shuffle(c["node_order"])          # a vertex's label is not its position in G.nodes()
         c["kind"] = "net"
         c["reverse_dict"] = rng.random() < 0.5
         return c
